@@ -315,6 +315,15 @@ pub fn raw_sem(
 
 /// Resolve a raw semantic case.  Returns the concrete case, the formulae and the built network.
 pub fn resolve_sem(raw: &RawSem, cfg: FCfg) -> Result<(SemCase, Vec<F>, Net), &'static str> {
+    resolve_sem_with(raw, cfg, |env, raws| gen::resolve_batch(raws, env))
+}
+
+/// Like `resolve_sem`, with a custom construction of the (closed) formulae from the raw ones.
+pub fn resolve_sem_with(
+    raw: &RawSem,
+    cfg: FCfg,
+    build: impl FnOnce(&FEnv, &[RawF]) -> Vec<F>,
+) -> Result<(SemCase, Vec<F>, Net), &'static str> {
     let aeon = gen::resolve_net(&raw.net);
     let bn = BooleanNetwork::try_from(aeon.as_str()).map_err(|_| "aeon-not-parsed")?;
     let props: Vec<String> = bn
@@ -331,7 +340,7 @@ pub fn resolve_sem(raw: &RawSem, cfg: FCfg) -> Result<(SemCase, Vec<F>, Net), &'
         labels: &labels,
         cfg,
     };
-    let fs: Vec<F> = raw.fs.iter().map(|r| gen::resolve_f(r, &env)).collect();
+    let fs: Vec<F> = build(&env, &raw.fs);
     let depth = fs.iter().map(|f| f.quant_depth()).max().unwrap_or(0);
     let k = depth as u16 + raw.extra_k as u16;
     let net = match Net::from_bn(bn, aeon.clone(), k) {
@@ -359,4 +368,36 @@ pub fn resolve_sem(raw: &RawSem, cfg: FCfg) -> Result<(SemCase, Vec<F>, Net), &'
         extra: Value::Null,
     };
     Ok((case, fs, net))
+}
+
+/// Shared replay plumbing: decode the concrete case, rebuild the network, re-read the formulae.
+pub fn replay_with(
+    case: &Value,
+    check: impl FnOnce(&SemCase, &Net, &[F]) -> crate::engine::Verdict,
+) -> crate::engine::Verdict {
+    use crate::engine::Verdict;
+    let case = match SemCase::from_json(case) {
+        Ok(c) => c,
+        Err(_) => return Verdict::Discard("unreadable-case"),
+    };
+    let net = match build_net(&case) {
+        Ok(n) => n,
+        Err(r) => return Verdict::Discard(r),
+    };
+    let mut case = case;
+    case.context = normalise_context(&net, &case.context);
+    let fs = case.parsed();
+    check(&case, &net, &fs)
+}
+
+/// Invalid colours (sampled) of a network.
+pub fn sample_invalid_colours(net: &Net, max: usize) -> Vec<u64> {
+    let invalid: Vec<u64> = (0..net.num_colours() as u64)
+        .filter(|c| !net.valid[*c as usize])
+        .collect();
+    if invalid.len() <= max {
+        return invalid;
+    }
+    let step = invalid.len() as f64 / max as f64;
+    (0..max).map(|i| invalid[(i as f64 * step) as usize]).collect()
 }
